@@ -31,7 +31,17 @@ Dirs     == {"main", "legacy"}
 Marks    == {"reg", "unreg"}
 Marker   == {"absent", "file", "link", "dangling"}
 DirKind  == {"absent", "empty", "populated"}
-Forms    == {"canonical", "legacy", "newline"}      \* renderings of an identifier in the file
+InitForms == {"canonical", "legacy", "newline"}     \* renderings of an identifier found in a pre-existing file
+(* spelling of the subscription-manager identity the host offers: none, or  *)
+(* a UUID written canonically (version 4), without hyphens, in upper case,  *)
+(* as a canonical-looking UUID that is not version 4 (the canonicalisation  *)
+(* on return rewrites its version / variant bits), or with white space      *)
+(* around it.  The code persists the identity AS SPELLED, so these are also *)
+(* renderings an identifier file can end up with.                           *)
+RhsmKinds == {"none", "canonical", "unhyphenated", "upper", "nonv4", "spaced"}
+RhsmForm(k) == CASE k = "unhyphenated" -> "legacy" [] k = "upper" -> "upper" [] k = "nonv4" -> "nonv4"
+                 [] k = "spaced" -> "spaced" [] OTHER -> "canonical"
+Forms    == InitForms \cup {"upper", "nonv4", "spaced"}   \* renderings of an identifier in the file
 NoFile   == [form |-> "absent", id |-> "none"]
 EmptyF   == [form |-> "empty",  id |-> "none"]
 Tgt0     == [live |-> "intact", dead |-> "absent"]  \* link targets: an existing file, a missing path
@@ -45,6 +55,7 @@ Exists(s, d)  == s.dir[d] # "absent"
 Present(m)    == m # "absent"                       \* os.path.lexists
 IsLink(m)     == m \in {"link", "dangling"}
 HasId(f)      == f.form \in Forms                   \* the file holds an identifier (is not empty)
+HasRhsm(s)    == s.rhsm # "none"
 MarkOf(s, m)  == IF m = "reg" THEN s.reg ELSE s.unreg
 Both(s, d)    == Present(s.reg[d]) /\ Present(s.unreg[d])
 
@@ -119,13 +130,15 @@ PlantF(s, d, m, k) ==
 
 (* generate_machine_id(): reuse the file, else the identity the system      *)
 (* already has, else the subscription identity, else a fresh UUID; persist  *)
-(* what was chosen when there was no identifier in the file.                *)
+(* what was chosen when there was no identifier in the file (a subscription *)
+(* identity is stored as the host spells it; what is RETURNED is always the *)
+(* canonical identifier, here the token).                                   *)
 ReadIdent(s, fresh) ==
     IF HasId(s.idf) THEN s.idf.id
     ELSE IF s.cur # "none" THEN s.cur
-    ELSE IF s.rhsm THEN "rhsm" ELSE fresh
-NewIdent(s, fresh) == IF s.rhsm THEN "rhsm" ELSE fresh
-Persist(s, i) == IF Exists(s, "main") THEN [form |-> "canonical", id |-> i] ELSE s.idf
+    ELSE IF HasRhsm(s) THEN "rhsm" ELSE fresh
+NewIdent(s, fresh) == IF HasRhsm(s) THEN "rhsm" ELSE fresh
+Persist(s, i) == IF Exists(s, "main") THEN [form |-> RhsmForm(s.rhsm), id |-> i] ELSE s.idf
 
 ReadIdF(s, fresh) ==
     LET i == ReadIdent(s, fresh) IN
@@ -143,10 +156,10 @@ vars == <<st, act, nf>>
 
 Fresh == "f" \o ToString(nf + 1)
 UsesFresh(s, op) ==
-    \/ op = "NewId"  /\ ~s.rhsm
-    \/ op = "ReadId" /\ ~HasId(s.idf) /\ s.cur = "none" /\ ~s.rhsm
+    \/ op = "NewId"  /\ ~HasRhsm(s)
+    \/ op = "ReadId" /\ ~HasId(s.idf) /\ s.cur = "none" /\ ~HasRhsm(s)
 
-IdFiles == {NoFile, EmptyF} \cup [form : Forms, id : {"u0"}]
+IdFiles == {NoFile, EmptyF} \cup [form : InitForms, id : {"u0"}]
 
 (* every initial state: absent / empty directories hold nothing, populated  *)
 (* ones hold every combination of markers (and identifier file)             *)
@@ -154,7 +167,7 @@ InitStates ==
     { [dir |-> dk, reg |-> r, unreg |-> u, idf |-> f, tgt |-> TgtAll0, rhsm |-> h,
        cur |-> IF HasId(f) THEN f.id ELSE "none"] :
         dk \in [Dirs -> DirKind], r \in [Dirs -> Marker], u \in [Dirs -> Marker],
-        f \in IdFiles, h \in BOOLEAN }
+        f \in IdFiles, h \in RhsmKinds }
 WellFormed(s) ==
     /\ \A d \in Dirs : s.dir[d] # "populated" => (s.reg[d] = "absent" /\ s.unreg[d] = "absent")
     /\ s.dir["main"] # "populated" => s.idf = NoFile
@@ -198,7 +211,7 @@ Spec == Init /\ [][Next]_vars
 (***************************************************************************)
 TypeOK ==
     /\ st.dir \in [Dirs -> DirKind] /\ st.reg \in [Dirs -> Marker] /\ st.unreg \in [Dirs -> Marker]
-    /\ st.idf.form \in Forms \cup {"absent", "empty"} /\ st.rhsm \in BOOLEAN
+    /\ st.idf.form \in Forms \cup {"absent", "empty"} /\ st.rhsm \in RhsmKinds
     /\ \A d \in Dirs : ~Exists(st, d) => (st.reg[d] = "absent" /\ st.unreg[d] = "absent")
     /\ ~Exists(st, "main") => st.idf = NoFile
 
